@@ -260,6 +260,7 @@ def execute(sim, scn):
     end = None
     acc = []  # reference's accepted notifications
     v1 = t1 = None
+    time_tie = False
     seq = sorted([("a", a["pos"], a) for a in arrivals[0:]] + [("i", p, t) for (t, p) in icmp_ts], key=lambda x: x[1])
     started = False
     for kind, pos, x in seq:
@@ -276,6 +277,11 @@ def execute(sim, scn):
         if x["v"] is None:
             end = {"how": "final", "t": x["t"], "pos": pos, "payload": x["payload"], "code": x["code"]}
             continue
+        serial_fresh = (v1 < x["v"] and x["v"] - v1 < M23) or (v1 > x["v"] and v1 - x["v"] > M23)
+        if not serial_fresh and abs((x["t"] - t1) - 128.0) < 1e-6:
+            # exactly on the 128 s boundary (sums of generated gaps can land there): either verdict is legal and
+            # everything after depends on it
+            time_tie = True
         if fresher(v1, t1, x["v"], x["t"]):
             acc.append(x)
             if x["v"] < v1 and v1 - x["v"] > M23:
@@ -292,6 +298,9 @@ def execute(sim, scn):
                 sim.probe("duplicate")
             else:
                 sim.probe("reordered")
+    if time_tie:
+        sim.probe("time_rule_exact_tie")
+        return
     expected = [(a["payload"], a["v"]) for a in acc]
     if end is not None and end["how"] == "final":
         expected_final = (end["payload"], None)
